@@ -45,8 +45,15 @@ fn truncate_str_impl<'a>(
     };
     let mut used = measure_text_width(&result_tail);
     let mut result = String::new();
+    // Once a grapheme did not fit, no text which follows it may be added (only the escape
+    // sequences are still needed): `used` does not account for a fill character, and a later
+    // narrower grapheme would otherwise be appended after the cut.
+    let mut truncated = false;
     for (t, is_ansi) in items {
         if !is_ansi {
+            if truncated {
+                continue;
+            }
             for g in t.graphemes(true) {
                 let width_of_grapheme = g.width();
                 if used + width_of_grapheme > display_width {
@@ -65,6 +72,7 @@ fn truncate_str_impl<'a>(
                             }
                         }
                     }
+                    truncated = true;
                     break;
                 }
                 result.push_str(g);
